@@ -131,15 +131,22 @@ def gen_session(rng, n_ops):
         sh2 = copy.deepcopy(sh)
         # (which of two identical definitions on one chain counts as the own one may depend on the merge order)
         own = kind not in ("merge-reparent",)
+
+        def own_ok(t_):
+            # a feature that a type declares although an ancestor declares it identically (declared on the subtype first) is
+            # kept as an own feature by the API but not by a derivation, which creates supertypes first (finding X12 for the
+            # descriptor; the property speaks about EFFECTIVE features): the own listing is then not compared
+            inh_ = {g["name"] for a_ in sh2.ancestors(t_)[1:] for g in sh2.own[a_]}
+            return own and not any(f_["name"] in inh_ for f_ in sh2.own[t_])
         for t in user:
-            listing_checks(t, ts2, sh2, own)
+            listing_checks(t, ts2, sh2, own_ok(t))
         d = rng.choice(user)
         i = len(sb.ops)
         sb.create_feature(ts2, d, "lateFeature", "uima.cas.Integer")
         expect[i] = sh2.create_feature(d, "lateFeature", "uima.cas.Integer", None, None, None)
         if expect[i] == "ok":
             for t in sh2.descendants(d)[:4]:
-                listing_checks(t, ts2, sh2, own)
+                listing_checks(t, ts2, sh2, own_ok(t))
                 instantiate(t, ts2, sh2)
     return sb.ops, expect, len(user), False
 
